@@ -20,6 +20,8 @@ CONSTANTS MinN, MaxN,
           GuiseTest,   \* "callable" (the code: the function is used as given) | "or_default" (control: `fn or default`)
           ArgSwap,     \* "none" (the code) | "fill_geometry" (control: geometry-less events are compared through copies
                        \*  that were given a geometry)
+          IndexWrap,   \* 0 (the code) | W > 0 (control: 0-based matrix indices >= W wrap to index - 2W, negative ones counting
+                       \*  from the end -- what an int8 index array does at W = 128)
           GeoMaxN,     \* every non-empty set of geometry-less events is enumerated for twin-free lists up to this length
           GeoFilter,   \* "none" (the code) | "filtered" (control: events without geometry are left out of the pair loop,
                        \*  the indices then refer to the filtered list)
@@ -71,6 +73,10 @@ Loc == IF GeoFilter = "filtered" THEN SelectSeq([i \in 1..c.n |-> i], LAMBDA i :
        ELSE [i \in 1..c.n |-> i]
 PS == PairSeq(Len(Loc))
 \* the pair is linked when the answer passes the test of the code: truthiness, or (control) identity with True
+\* where a matrix entry for position i is written
+Idx(i) == IF IndexWrap > 0 /\ i - 1 >= IndexWrap
+          THEN LET w == (i - 1) - 2 * IndexWrap IN (IF w < 0 THEN c.n + w ELSE w) + 1
+          ELSE i
 \* control "fill_geometry": the argument standing in for a geometry-less event is not that event
 Genuine(i) == ~(ArgSwap = "fill_geometry" /\ c.id[i] \in Range(c.ng))
 Flag(i) == IF Genuine(i) THEN 1 ELSE 0
@@ -80,7 +86,7 @@ Linked(i, j) == /\ Edge(c, i, j) /\ (TruthTest = "truthy" \/ c.ret = "bool")
                 /\ (c.gd => (Genuine(i) /\ Genuine(j))) /\ ~Replaced
 PairHit  == /\ pc = "pairs" /\ pi <= Len(PS) /\ Linked(Loc[PS[pi][1]], Loc[PS[pi][2]])
             /\ calls' = Append(calls, <<c.id[Loc[PS[pi][1]]], c.id[Loc[PS[pi][2]]], Flag(Loc[PS[pi][1]]), Flag(Loc[PS[pi][2]])>>)
-            /\ mat' = mat \cup {<<PS[pi][1], PS[pi][2]>>, <<PS[pi][2], PS[pi][1]>>}
+            /\ mat' = mat \cup {<<Idx(PS[pi][1]), Idx(PS[pi][2])>>, <<Idx(PS[pi][2]), Idx(PS[pi][1])>>}
             /\ pi' = pi + 1 /\ UNCHANGED <<c, pc, lab, nl, fr, gi, seqs>>
 PairMiss == /\ pc = "pairs" /\ pi <= Len(PS) /\ ~Linked(Loc[PS[pi][1]], Loc[PS[pi][2]])
             /\ calls' = Append(calls, <<c.id[Loc[PS[pi][1]]], c.id[Loc[PS[pi][2]]], Flag(Loc[PS[pi][1]]), Flag(Loc[PS[pi][2]])>>)
